@@ -342,7 +342,11 @@ func (r *ref) onInterest(in *inst, o *iOp, nonce uint32, hasNonce, dead bool, be
 		}
 	}
 	answered := len(ds) > 0
-	first := e == nil
+	// "The first Interest ... that has a usable next hop is forwarded": as long as nothing was
+	// TRANSMITTED for the pending Interest (earlier arrivals had no usable next hop, e.g. their hop
+	// limit was exhausted, or named a next hop that does not exist) the next arrival is that first
+	// one. Transmissions are what was observed on the faces, never the forwarder's out-records.
+	first := e == nil || e.last == nil
 	cacheMiss := !r.cacheOn || !r.cache[o.name]
 	if answered {
 		stats["answered from the cache"]++
